@@ -96,5 +96,6 @@ def finishStatus : Finish → List Nat
   | .drop => [500]
   | .writer _ => []
   | .upgrade _ r _ => [r.status]
+  | .respondFail r _ => [r.status]
 
 end TH.Spec
